@@ -54,6 +54,20 @@ def descriptor_fields(P):
     return fields, init
 
 
+def descriptor_values(P) -> dict[str, str]:
+    """text of the value a descriptor field is created from (`inotify_init()`, `os.pipe()[0]`, ...) -> field: inside the constructor
+    a descriptor may be closed through the local (or tuple component) that holds it before / instead of through the field"""
+    init = P.find_method("Inotify", "__init__")
+    out = {}
+    for p in Enumerator(ProtoCfg(P)).run(init):
+        for e in p.evs:
+            if e.kind == "store" and e.extra.get("recv") == "self":
+                v = e.extra.get("value") or ""
+                if v == "inotify_init()" or re.fullmatch(r"os\.pipe\(\)\[[01]\]", v):
+                    out[v] = e.extra["attr"]
+    return out
+
+
 def fd_text(e) -> str:
     """The text a descriptor use is decided on: the call as written, plus those substituted arguments that are *exactly* a
     `self.<field>` attribute (a local that is a pure alias of the field, e.g. the loop variable of an unrolled
@@ -61,6 +75,20 @@ def fd_text(e) -> str:
     flow from it."""
     raw = e.raw or e.text
     exact = [a for a in (e.extra.get("args") or []) if re.fullmatch(r"self\._\w+", a)]
+    # a value that was *computed from* a descriptor earlier (e.g. the bytes os.read() returned, substituted for the local that holds
+    # them) does not touch the descriptor again: nested calls inside the arguments are blanked out
+    try:
+        tree = ast.parse(raw, mode="eval").body
+        if isinstance(tree, ast.Call):
+            def blank(n):
+                return ast.Name("_computed_", ast.Load()) if isinstance(n, ast.Call) else n
+            from ..pse import rewrite as _rw
+
+            args = [_rw(a, lambda n: ast.Name("_computed_", ast.Load()) if isinstance(n, ast.Call) else None) for a in tree.args]
+            kws = [ast.keyword(k.arg, _rw(k.value, lambda n: ast.Name("_computed_", ast.Load()) if isinstance(n, ast.Call) else None)) for k in tree.keywords]
+            raw = ast.unparse(ast.Call(tree.func, args, kws))
+    except (SyntaxError, ValueError):
+        pass
     return raw + (" " + " ".join(exact) if exact else "")
 
 
@@ -299,6 +327,7 @@ def run(ctx) -> None:
                     return ["OSError:EMFILE"]
             return ()
 
+    fdvals = descriptor_values(P)
     cpaths = Enumerator(CtorCfg(P, fault=True)).run(init, selfcls="Inotify")
     ctx.count("ctor_paths", len(cpaths))
     nraise = 0
@@ -321,6 +350,9 @@ def run(ctx) -> None:
                 for f in fds:
                     if re.search(rf"\bself\.{f}\b|\b{f.lstrip('_')}\b", fd_text(e)):
                         closed.add(f)
+                a0 = (e.extra.get("args") or [""])[0]
+                if a0 in fdvals:
+                    closed.add(fdvals[a0])  # closed through the local / tuple component that holds the freshly created descriptor
         if first_fd_failed:
             acquired = [f for f in acquired if fds[f] != "inotify_init"]
         r = [e for e in p.evs if e.kind in ("raised", "raise")]
